@@ -112,7 +112,8 @@ package req
 //@   before call:Broadcast#1 assert at("loop1:head", c.reqID) != id ==> c.reqID == at("loop1:head", c.reqID) && c.repMsg == at("loop1:head", c.repMsg)
 //@   before call:Broadcast#1 assert at("loop1:head", c.reqID) == id ==> c.reqID == 0 && c.repMsg == nil && m == at("loop1:head", c.repMsg)
 //@   before call:Broadcast#1 assert at("loop1:head", c.reqID) != id ==> m == nil
-//@   before call:Broadcast#1 assert !c.receiveWait
+//@   before call:Broadcast#1 assert at("loop1:head", c.reqID) == id ==> !c.receiveWait
+//@   before call:Broadcast#1 assert at("loop1:head", c.reqID) != id ==> c.receiveWait == at("loop1:head", c.receiveWait)
 //@
 //@ func (*socket).send
 //@   before call:AfterFunc#1 assert c.resendTimer == nil || ev("stopped", c.resendTimer)
